@@ -4,6 +4,7 @@ nested `subgraph clusterN { ... }`, node statements with HTML labels, edge state
 
 from __future__ import annotations
 
+import html
 import re
 
 NODE_START = re.compile(r'^\t*("?)(-?\d+)\1 \[label=<\s*$')
@@ -79,7 +80,7 @@ def parse(source: str) -> dict:
             nodes[idx] = {"cluster_path": list(stack), "label": label,
                           "in_cells": [int(k) for d, k in PORT.findall(label) if d == "in"],
                           "out_cells": [int(k) for d, k in PORT.findall(label) if d == "out"],
-                          "name": b.group(1) if b else None, "count": counts[idx]}
+                          "name": html.unescape(b.group(1)) if b else None, "count": counts[idx]}
             i = j + 1
             continue
         m = SUB_START.match(ln)
